@@ -4,13 +4,19 @@ Model of the TYPED COMPARISON kernel of log search (C02, kernel slice "C02K").  
 Mirrors, as they are (quirks included):
   record side   pkg/segment/writer/rawchecker.go
                   ApplySearchToExpressionFilterSimpleCsg :179   (holder reset, then filterOpOnDataType)
-                  filterOpOnDataType :197      dispatch on the LITERAL's dtype (string / bool / number / backfill)
+                  filterOpOnDataType :197      dispatch on the LITERAL's dtype (string / bool / number / backfill); for a
+                                               string / bool literal a BACK-FILL record (the event lacks the column) is
+                                               treated like the empty record of a block without the column: only `!=`
+                                               holds (repair c02-1; before: no match at all, kept as `implCmpBackfillOld`)
                   fopOnString :289             = / != on the bytes after the 3-byte header, optional ASCII case folding
                   fopOnBool :324               rec[1] == BoolVal
                   getNumberRecDte :336         TLV tag → signed / unsigned / float view of the stored value
                                                (INT8: `int64(rec[1])` of the BYTE — no sign extension)
                   fopOnNumber :384             literal is FLOAT and record is an integer ⇒ record := float64(record)
-                                               (as repaired by /repo ec0bd3f), then compareNumberDte
+                                               (as repaired by /repo ec0bd3f), then compareNumberDte; a STRING record
+                                               that reads as a number (utils.FastParseFloat accepts it, value by
+                                               strconv.ParseFloat) is compared as that float64 (repair c02-4; before:
+                                               "not a number", kept as `fopOnNumberStrOld`)
                   compareNumberDte :420        switch on the RECORD's dtype: float → FloatVal (exact == / != since the
                                                C02 repair; before: dtypeutils.AlmostEquals, kept as `…Old`),
                                                unsigned → UnsignedVal, signed → SignedVal (an unsigned literal above
@@ -36,8 +42,11 @@ reports overflow as an error) — the Oracle rejects other bit patterns.  The ro
 ASSUMPTION stated for the theorems: `rnd 0 = 0`, `rnd (rnd x) = rnd x`, `rnd` fixes binary64 values; exactness of
 `rnd` on the integers that are converted is part of the guards (it holds for |n| ≤ 2^53).
 The definitions named `…Old` mirror the code BEFORE the C02 repairs (tolerance-based float equality, wrapped
-literal in the signed branch, ConvertToSameType overwriting a value with a failed conversion) and exist only for
+literal in the signed branch, ConvertToSameType overwriting a value with a failed conversion, numeric strings that
+are never numbers, back-fill records that never satisfy `!=` against a string / bool literal) and exist only for
 the recorded counterexample theorems.
+Numeric text: `numOfStr?` is the grammar of utils.FastParseFloat, `[+-]?(digits[.digits*]|.digits)([eE][+-]?digits)?`;
+the correspondence suite keeps mantissas ≤ 40 digits and |exponent| ≤ 40 (no float64 overflow inside the domain).
 `int64(f)` / `uint64(f)` of a float literal outside the target range are implementation-defined in Go; the
 model wraps, no comparison reads these two fields of a FLOAT literal.
 Regular-expression / wildcard literals (`isRegexSearch`) are outside this model.
@@ -204,6 +213,57 @@ def boolLit (b : Bool) : Lit := { dtype := .bool, boolv := if b then 1 else 0 }
 /-- `CreateDtypeEnclosure(nil)` -/
 def nilLit : Lit := { dtype := .backfill }
 
+/-! ### numeric text -/
+
+def isDigit (c : Nat) : Bool := 48 ≤ c && c ≤ 57
+
+def digitsVal (ds : Bytes) : Nat := ds.foldl (fun acc c => 10 * acc + (c - 48)) 0
+
+def pow10Q (e : Int) : Rat := if e ≥ 0 then ((10 ^ e.toNat : Nat) : Rat) else 1 / ((10 ^ (-e).toNat : Nat) : Rat)
+
+/-- the pieces of a text of the shape `[+-]?(digits[.digits*]|.digits)([eE][+-]?digits)?` — exactly the strings
+`utils.FastParseFloat` accepts (every one of them is also accepted by `strconv.ParseFloat`) -/
+structure NumShape where
+  neg : Bool
+  ip : Bytes            -- digits before the point
+  fp : Bytes            -- digits after the point
+  eneg : Bool
+  eds : Bytes           -- exponent digits ([] = no exponent part)
+deriving DecidableEq, Repr
+
+def numShape? (s : Bytes) : Option NumShape :=
+  let (neg, body) := match s with
+    | 45 :: r => (true, r)
+    | 43 :: r => (false, r)
+    | _ => (false, s)
+  let ip := body.takeWhile isDigit
+  let r1 := body.drop ip.length
+  let (fp, r2) : Bytes × Bytes := match r1 with
+    | 46 :: r => (r.takeWhile isDigit, r.drop (r.takeWhile isDigit).length)
+    | _ => ([], r1)
+  if ip.isEmpty && fp.isEmpty then none else
+  match r2 with
+  | [] => some { neg := neg, ip := ip, fp := fp, eneg := false, eds := [] }
+  | e :: r =>
+    if e = 101 ∨ e = 69 then
+      let (eneg, ds) : Bool × Bytes := match r with
+        | 45 :: d => (true, d)
+        | 43 :: d => (false, d)
+        | _ => (false, r)
+      if ds.isEmpty || !ds.all isDigit then none
+      else some { neg := neg, ip := ip, fp := fp, eneg := eneg, eds := ds }
+    else none
+
+/-- the exact value of the decimal text -/
+def NumShape.val (n : NumShape) : Rat :=
+  let mant : Rat := (digitsVal n.ip : Rat) + (digitsVal n.fp : Rat) / ((10 ^ n.fp.length : Nat) : Rat)
+  let e : Int := if n.eneg then -(digitsVal n.eds : Int) else (digitsVal n.eds : Int)
+  let mag := mant * pow10Q e
+  if n.neg then -mag else mag
+
+/-- exact value of a text in number syntax (none: the text is not a number) -/
+def numOfStr? (s : Bytes) : Option Rat := (numShape? s).map NumShape.val
+
 /-! ### the record side -/
 
 /-- numeric view of a stored record (`recDte` after `getNumberRecDte`) -/
@@ -273,12 +333,32 @@ def promote (rnd : Rat → Rat) (q : Lit) (r : RecNum) : RecNum :=
     | .float a => .float a
   else r
 
+/-- the string branch of `fopOnNumber` (repair c02-4): `len(rec) > 3 && rec[0] == VALTYPE_ENC_SMALL_STRING`, the
+bytes after the 3-byte header pass `utils.FastParseFloat`, `strconv.ParseFloat` gives the value: the record is
+that float64 (`recDte.Dtype = SS_DT_FLOAT`) -/
+def strRecNum? (rnd : Rat → Rat) (rec : Bytes) : Option RecNum :=
+  match rec with
+  | t :: _ :: _ :: c :: rest =>
+    if t = tStr then (numOfStr? (c :: rest)).map (fun a => RecNum.float (rnd a)) else none
+  | _ => none
+
 /-- `fopOnNumber` -/
 def fopOnNumber (rnd : Rat → Rat) (rec : Bytes) (q : Lit) (op : Op) : Res Bool :=
   match getNumberRecDte rec with
   | .panic => .panic
   | .err e => .err e
-  | .ok none => .ok (op == .ne)          -- "=, <, >= etc. should not match, but != should match"
+  | .ok none =>
+    match strRecNum? rnd rec with
+    | some r => .ok (compareNumberDte r q op)     -- a string that reads as a number is compared by value
+    | none => .ok (op == .ne)          -- "=, <, >= etc. should not match, but != should match"
+  | .ok (some r) => .ok (compareNumberDte (promote rnd q r) q op)
+
+/-- `fopOnNumber` BEFORE repair c02-4: a string record is never a number -/
+def fopOnNumberStrOld (rnd : Rat → Rat) (rec : Bytes) (q : Lit) (op : Op) : Res Bool :=
+  match getNumberRecDte rec with
+  | .panic => .panic
+  | .err e => .err e
+  | .ok none => .ok (op == .ne)
   | .ok (some r) => .ok (compareNumberDte (promote rnd q r) q op)
 
 /-- `fopOnNumber` BEFORE the repairs (numeric literals only; the rest of the dispatch did not change) -/
@@ -320,20 +400,40 @@ def fopOnBool (rec : Bytes) (q : Lit) (op : Op) : Res Bool :=
     | _ => .err "invalid-operator"
   | _ => .panic
 
+/-- string / bool literal against an event that does not have the column (`len(rec) == 0`, or a back-fill record) -/
+def absentCmp (op : Op) : Res Bool :=
+  match op with | .eq => .ok false | .ne => .ok true | _ => .err "invalid-operator"
+
 /-- `ApplySearchToExpressionFilterSimpleCsg` = `filterOpOnDataType` with `isRegexSearch = false` -/
 def implCmp (rnd : Rat → Rat) (ci : Bool) (rec : Bytes) (op : Op) (q : Lit) : Res Bool :=
   match q.dtype with
   | .str =>
     match rec with
-    | [] => (match op with | .eq => .ok false | .ne => .ok true | _ => .err "invalid-operator")
-    | t :: _ => if t ≠ tStr then .ok false else fopOnString ci rec q op
+    | [] => absentCmp op
+    | t :: _ => if t = tBackfill then absentCmp op          -- repair c02-1
+                else if t ≠ tStr then .ok false else fopOnString ci rec q op
   | .bool =>
     match rec with
-    | [] => (match op with | .eq => .ok false | .ne => .ok true | _ => .err "invalid-operator")
-    | t :: _ => if t ≠ tBool then .ok false else fopOnBool rec q op   -- fix 0ee498e: a non-boolean record is no match (was: error "expected-bool")
+    | [] => absentCmp op
+    | t :: _ => if t = tBackfill then absentCmp op          -- repair c02-1
+                else if t ≠ tBool then .ok false else fopOnBool rec q op   -- fix 0ee498e: a non-boolean record is no match (was: error "expected-bool")
   | .signed | .unsigned | .float => fopOnNumber rnd rec q op
   | .backfill => .ok false
   | .other => .err "could-not-complete-op"
+
+/-- string / bool literals BEFORE repair c02-1: a back-fill record is "not a string" / "not a boolean": no match,
+`!=` included — while the empty record of a block without the column satisfies `!=` -/
+def implCmpBackfillOld (ci : Bool) (rec : Bytes) (op : Op) (q : Lit) : Res Bool :=
+  match q.dtype with
+  | .str =>
+    match rec with
+    | [] => absentCmp op
+    | t :: _ => if t ≠ tStr then .ok false else fopOnString ci rec q op
+  | .bool =>
+    match rec with
+    | [] => absentCmp op
+    | t :: _ => if t ≠ tBool then .ok false else fopOnBool rec q op
+  | _ => .err "could-not-complete-op"
 
 /-! ### stored values and the specification -/
 
@@ -371,33 +471,14 @@ def SVal.toTlv : SVal → Val
 /-- the record bytes the writer stores for the value -/
 def SVal.enc (v : SVal) : Bytes := encTLV v.toTlv
 
-def isDigit (c : Nat) : Bool := 48 ≤ c && c ≤ 57
-
-def digitsVal (ds : Bytes) : Nat := ds.foldl (fun acc c => 10 * acc + (c - 48)) 0
-
-/-- value of a text of the shape `-?digits(.digits)?` — the numeric strings the specification recognises -/
-def numOfStr? (s : Bytes) : Option Rat :=
-  let (neg, body) := match s with
-    | 45 :: r => (true, r)
-    | _ => (false, s)
-  let ip := body.takeWhile isDigit
-  let rest := body.drop ip.length
-  if ip.isEmpty then none else
-  let mag : Option Rat :=
-    match rest with
-    | [] => some (digitsVal ip : Rat)
-    | 46 :: fp =>
-      if fp.isEmpty || !fp.all isDigit then none
-      else some ((digitsVal ip : Rat) + (digitsVal fp : Rat) / ((10 ^ fp.length : Nat) : Rat))
-    | _ => none
-  mag.map (fun m => if neg then -m else m)
-
-/-- the number a stored value denotes, if any -/
-def SVal.num? : SVal → Option Rat
+/-- the number a stored value denotes, if any: integers and float64 records their exact values; a STRING in number
+syntax (`numOfStr?`) denotes the float64 it reads as (`rnd` of the decimal value) — the same reading as for a
+literal that is not an integer -/
+def SVal.num? (rnd : Rat → Rat) : SVal → Option Rat
   | .int i => some (i : Rat)
   | .uint n => some (n : Rat)
   | .float b => some (f64val b)
-  | .str s => numOfStr? s
+  | .str s => (numOfStr? s).map rnd
   | _ => none
 
 /-- the number a numeric literal denotes: an integer literal its integer, any other literal its float64 -/
@@ -415,8 +496,8 @@ def litVal (rnd : Rat → Rat) (t : NumText) : Rat :=
 
 /-- SPECIFICATION of a comparison against a numeric literal: by VALUE, independent of how the stored number or
 the literal is typed or spelled; a value that is not a number satisfies only `!=`. -/
-def specCmp (v : SVal) (op : Op) (q : Lit) : Bool :=
-  match v.num?, q.num? with
+def specCmp (rnd : Rat → Rat) (v : SVal) (op : Op) (q : Lit) : Bool :=
+  match v.num? rnd, q.num? with
   | some a, some b => cmpQ op a b
   | _, _ => op == .ne
 
